@@ -120,7 +120,7 @@ func drawChunks(t *rapid.T, label string, size int) []int {
 }
 
 var plainKinds = []string{"write-msg", "writer", "writer", "writer-fail", "ownbuf", "cipher-writer", "cipher-reader", "readfrom", "control-writer", "mask-helpers", "reject", "reject", "reject-fresh", "bad-handshake", "shared-upgrade", "ext-writer", "shared-send", "send-close", "read-data", "read-msg", "reader", "ping", "ping", "pong", "compiled"}
-var flateKinds = []string{"flate-send", "flate-recv", "flate-recv", "flate-bytes", "flate-writer", "flate-reader"}
+var flateKinds = []string{"flate-send", "flate-send", "flate-recv", "flate-recv", "flate-bytes", "flate-writer", "flate-writer", "flate-writer", "flate-reader"}
 
 // drawTemplate draws the shape of a session. light = layer 2 (many sessions per case).
 func drawTemplate(t *rapid.T, light, tcp bool) template {
@@ -129,7 +129,7 @@ func drawTemplate(t *rapid.T, light, tcp bool) template {
 	tp.Client = rapid.Bool().Draw(t, "client")
 	h := &tp.HS
 	if tp.Client {
-		h.Mode = rapid.SampledFrom([]string{"dialer", "dialer", "dialer-flate", "default", "shared-dialer"}).Draw(t, "mode")
+		h.Mode = rapid.SampledFrom([]string{"dialer", "dialer", "dialer-flate", "default", "shared-dialer", "debug-dialer"}).Draw(t, "mode")
 	} else {
 		h.Mode = rapid.SampledFrom([]string{"upgrader", "upgrader", "upgrader-flate", "default", "http", "http-flate", "http-default", "shared-upgrader", "shared-http"}).Draw(t, "mode")
 	}
@@ -459,7 +459,7 @@ func newSession(id int, tp *template) *session {
 		hb = 4096
 	}
 	s.ops = append(s.ops, op{name: "handshake", fam: "handshake/" + tp.role(), class: hb})
-	if tp.Client && tp.HS.Trailing >= 0 {
+	if tp.Client && tp.HS.Trailing >= 0 && tp.HS.Mode != "debug-dialer" {
 		s.ops = append(s.ops, op{name: "br-read", fam: "br", class: hb}, op{name: "br-put", fam: "br", class: hb})
 	}
 	for i, sp := range tp.Steps {
@@ -605,6 +605,53 @@ func (p *lazyPeer) Read(b []byte) (int, error) {
 type sharedEnv struct {
 	up   []ws.Upgrader
 	http []ws.HTTPUpgrader
+
+	// one DebugDialer value all "debug-dialer" sessions of the run dial through
+	dbg      *wsutil.DebugDialer
+	mu       sync.Mutex
+	dbgConns map[string]net.Conn // "host:80" -> the dialing session's in-memory conn
+	dbgReq   map[string][][]byte // session key -> what OnRequest reported
+	dbgResp  map[string][][]byte // session key -> what OnResponse reported
+}
+
+var dbgProtocols = []string{"dbg.v1", "dbg.v2"}
+
+func (e *sharedEnv) initDebugDialer() {
+	e.dbgConns, e.dbgReq, e.dbgResp = map[string]net.Conn{}, map[string][][]byte{}, map[string][][]byte{}
+	e.dbg = &wsutil.DebugDialer{
+		Dialer: ws.Dialer{Protocols: dbgProtocols, NetDial: func(ctx context.Context, network, addr string) (net.Conn, error) {
+			e.mu.Lock()
+			defer e.mu.Unlock()
+			if c, ok := e.dbgConns[addr]; ok {
+				return c, nil
+			}
+			return nil, fmt.Errorf("harness: no in-memory peer registered for %s", addr)
+		}},
+		// the callbacks are shared too; a call is attributed by the session key the bytes carry
+		OnRequest: func(p []byte) {
+			key := "?"
+			if i := bytes.Index(p, []byte("GET /")); i == 0 {
+				if j := bytes.IndexByte(p[5:], ' '); j >= 0 {
+					key = string(p[5 : 5+j])
+				}
+			}
+			e.mu.Lock()
+			e.dbgReq[key] = append(e.dbgReq[key], append([]byte(nil), p...))
+			e.mu.Unlock()
+		},
+		OnResponse: func(p []byte) {
+			key := "?"
+			if i := bytes.Index(p, []byte("X-Session: ")); i >= 0 {
+				rest := p[i+len("X-Session: "):]
+				if j := bytes.Index(rest, []byte("\r\n")); j >= 0 {
+					key = string(rest[:j])
+				}
+			}
+			e.mu.Lock()
+			e.dbgResp[key] = append(e.dbgResp[key], append([]byte(nil), p...))
+			e.mu.Unlock()
+		},
+	}
 }
 
 func protoList(n int) []string {
@@ -629,6 +676,7 @@ func newEnv() *sharedEnv {
 		e.up = append(e.up, ws.Upgrader{Protocol: func(p []byte) bool { return sel(string(p)) }})
 		e.http = append(e.http, ws.HTTPUpgrader{Protocol: sel})
 	}
+	e.initDebugDialer()
 	return e
 }
 
@@ -792,8 +840,51 @@ func (s *session) serverHandshake() {
 
 var dialURLs = []string{"ws://example.com/x", "ws://example.com/chat?room=1"}
 
+// debugDial: the handshake through the run's shared wsutil.DebugDialer. The
+// session's transport calls the hook inside Dial, so in layer 1 another
+// session's Dial through the same value can run nested right there.
+func (s *session) debugDial() {
+	key := fmt.Sprintf("%s-%d", word(s.id, 2, 5), s.id)
+	host := fmt.Sprintf("d%d.test", s.id)
+	pick := dbgProtocols[s.id%len(dbgProtocols)]
+	var sent []byte
+	s.peer = &lazyPeer{s: s, chunks: s.tpl.HS.Chunks, render: func(k string) []byte {
+		sent = []byte("HTTP/1.1 101 Switching Protocols\r\nUpgrade: websocket\r\nConnection: Upgrade\r\nSec-WebSocket-Accept: " + acceptFor(k) +
+			"\r\nSec-WebSocket-Protocol: " + pick + "\r\nX-Session: " + key + "\r\n\r\n")
+		return sent
+	}}
+	own := &tx.MemConn{R: s.peer, W: s.peer}
+	e := s.env
+	e.mu.Lock()
+	e.dbgConns[host+":80"] = own
+	e.mu.Unlock()
+	conn, br, hs, err := e.dbg.Dial(context.Background(), "ws://"+host+"/"+key)
+	e.mu.Lock()
+	delete(e.dbgConns, host+":80")
+	reqs, resps := e.dbgReq[key], e.dbgResp[key]
+	delete(e.dbgReq, key)
+	delete(e.dbgResp, key)
+	e.mu.Unlock()
+	s.hs, s.hsErr = hs, err
+	if br != nil {
+		ws.PutReader(br)
+	}
+	ownConn := conn == net.Conn(own)
+	reqOK := len(reqs) == 1 && bytes.Equal(reqs[0], s.peer.written.Bytes())
+	respOK := len(resps) == 1 && bytes.Equal(resps[0], sent)
+	s.logf("err=%s hs={%s} request={%s} own-conn=%t on-request=%d own-request=%t on-response=%d own-response=%t br-nil=%t", renderErr(err), renderHS(hs),
+		renderHead(s.peer.written.String()), ownConn, len(reqs), reqOK, len(resps), respOK, br == nil)
+	s.expect(err == nil && hs.Protocol == pick, "handshake through the shared DebugDialer failed: %v, protocol %q want %q", err, hs.Protocol, pick)
+	s.expect(ownConn, "DebugDialer.Dial returned a connection that is not the one NetDial gave to this session")
+	s.expect(reqOK && respOK, "OnRequest/OnResponse did not report exactly this session's request and response (requests %d ok=%t, responses %d ok=%t)", len(reqs), reqOK, len(resps), respOK)
+}
+
 func (s *session) clientHandshake() {
 	h := s.tpl.HS
+	if h.Mode == "debug-dialer" {
+		s.debugDial()
+		return
+	}
 	protos := s.protos()
 	pick := protos[h.Pick]
 	answer := s.extHeader(true)
@@ -2309,7 +2400,13 @@ func (s *session) stepFlateWriterWrite(o op) {
 	wop, _ := s.opcode(o.spec)
 	s.wrec = tx.NewRec()
 	if s.fw == nil {
-		s.fw = wsflate.NewWriter(nil, flateCtor)
+		if s.tpl.HS.Sel%2 == 0 {
+			// the compressor constructor of the package-level DefaultHelper; the Writer keeps
+			// its compressor across Reset/Close, as the documentation of Reset describes
+			s.fw = wsflate.NewWriter(nil, wsflate.DefaultHelper.Compressor)
+		} else {
+			s.fw = wsflate.NewWriter(nil, flateCtor)
+		}
 		s.fwOut = wsutil.NewWriterSize(s.dst(s.wrec), s.state|ws.StateExtended, wop, o.spec.WSize)
 	}
 	s.fwOut.Reset(s.dst(s.wrec), s.state|ws.StateExtended, wop)
